@@ -1,6 +1,6 @@
 """Property -> rules table. Each rule callable: (prog, tier, repo) -> [RuleResult]."""
 from .rules import traversal_instances as TI
-from .rules import printer_rules
+from .rules import printer_rules, parser_progress
 from .rules import gate, lookup_unwrap, heap, witness, incremental, optimizer, const_arith, shape, backend, printer_rules, comment_linear, enum_evidence, ssa_shared, lex_bounds, gc_rules, scope, eval_order, guard_table, relation, type_walker, str_slice, loc_guard, sweep_window
 
 PROPERTIES = {}
@@ -191,8 +191,10 @@ prop('C05', COMMON +
      'SHAPE-PRODUCER: parser never builds a tree the checker aborts on. STR-SLICE: outside the lexer every byte-offset '
      'slice/truncate/split of a string takes its offsets from that same string (len/find/...), never from a Location column '
      'or a parameter. BINDER-WRITE: every typed identifier pattern the checker produces - also on its recover-as-any paths - is '
-     'dominated by recording a type for the identifier (get_captured unwraps it). Does not decide '
-     'termination of error recovery, or stack depth.',
-     [lex_bounds.run, lex_bounds.run_int_range, shape.run_fabricate, shape.run_shape, str_slice.run, gate.run_binder_write],
+     'dominated by recording a type for the identifier (get_captured unwraps it). PARSER-PROGRESS: clause "loops forever" for the '
+     'parser - an interprocedural must-consume analysis over 75 token classes (summaries per production, specialised on constant '
+     'keyword/operator arguments) shows that every trip through each of the parser\'s token-driven loops consumes a token. GATE: '
+     'parse errors land in the error set the compile entry point tests. Does not decide unbounded recursion or stack depth.',
+     [lex_bounds.run, lex_bounds.run_int_range, shape.run_fabricate, shape.run_shape, str_slice.run, gate.run_binder_write, parser_progress.run, gate.run_gate],
      ['lengths of in-memory slices are < 2^63 (usize additions on lengths do not overflow)',
       'A-05.1: parenthesised lists reaching a Tuple construction are non-empty'])
